@@ -284,6 +284,7 @@ structure Regs where
   history : List (Nat × Schema) := []
   lastInst : List (Nat × Nat) := []
   lastAcc : List (Nat × String) := []
+  userTime : Bool := false   -- a user registration for time.Time is in force (not modelled: never at the end of a history)
 
 def parseRegs : Sexp → Option Regs
   | .list (.atom "regs" :: es) =>
@@ -300,6 +301,10 @@ def parseRegs : Sexp → Option Regs
         pure { r with reg := r.reg.register id (fun s => s.type == acc),
                       lastInst := (id, inst) :: r.lastInst.filter (·.1 != id),
                       lastAcc := (id, acc) :: r.lastAcc.filter (·.1 != id) }
+      -- a user registration for time.Time is only generated directly before a library re-registration:
+      -- together they leave the library's own codec and schema in force (the most recent registration wins)
+      | .list [.atom "usertime"] => pure { r with userTime := true }
+      | .list [.atom "lib", _] => pure { r with userTime := false }
       | _ => none
   | _ => none
 
@@ -309,6 +314,7 @@ def parseExcept : Sexp → Option (List String)
 
 def parseSg (t env regs ex : Sexp) : Option SgCase := do
   let r ← parseRegs regs
+  if r.userTime then none
   pure { ty := (← parseGoType t), envL := (← parseEnv env), sreg := r.sreg, reg := r.reg,
          history := r.history, lastInst := r.lastInst, lastAcc := r.lastAcc, except := (← parseExcept ex) }
 
